@@ -45,6 +45,10 @@ def normalize(expression: exp.Expr, dnf: bool = False, max_distance: int = 128) 
                 logger.info(
                     f"Skipping normalization because distance {distance} exceeds max {max_distance}"
                 )
+                # Undo the BETWEEN rewrite above so that the input comes back unchanged
+                node.replace(original)
+                if root:
+                    return original
                 return expression
 
             try:
